@@ -10,7 +10,7 @@ RULE = ("a recording probe helper (dumps params / hash / block metadata as JSON,
         "expression, a block and a subexpression with arity 0..6 and hash size 0..4; arguments: JSON literals of depth ≤ 3 "
         "(strings over an alphabet with quotes, backslashes, braces, unicode and control escapes in both quote styles; "
         "integers across the i64/u64 range; decimals with ≤ 15 significant digits; exponent forms), paths (present and "
-        "missing), subexpressions nested ≤ 4 (lookup / eq / probe itself); block parameters 'as |a b|'; the same after a decorator replaced the render context; oracle = the values "
+        "missing), subexpressions nested ≤ 4 (lookup / eq / probe itself); block parameters 'as |a b|'; the same after a decorator replaced the render context; the tag at the root, in the body of a partial (with / without hash arguments) and inside a `with` over a subexpression result (the same data, held as a value owned by the scope); oracle = the values "
         "denoted, computed by the generator; exactly one dump per tag evaluation; non-trivial = at least one literal or "
         "subexpression argument; distinct by argument list")
 DEFINITE_FLOOR = 0.9
@@ -196,8 +196,19 @@ def gen_case(rng, i):
         # after a decorator replaced the render context (by the same data): arguments are resolved against the replacement –
         # present values, explicit nulls included, stay present; paths that designate nothing stay missing
         tpl = "{{*sc this}}" + tpl
-    case = session(cfg, [], {"api": "render_template", "src": tpl}, DATA)
-    return case, {"expect": exp, "form": form, "tpl": tpl}
+    # the scope the tag is evaluated in: the root data, or the SAME data held as a value owned by the scope (the body of a
+    # partial, with / without hash arguments; a `with` over a subexpression result) – arguments denote the same values, and a
+    # path that designates nothing is flagged missing in each of them
+    wrap = rng.weighted([("root", 5), ("partial", 2), ("partial-hash", 1), ("with-sub", 2), ("partial-in-with", 1)])
+    templates = []
+    src = tpl
+    if wrap in ("partial", "partial-hash", "partial-in-with"):
+        templates = [("pp", tpl)]
+        src = {"partial": "{{> pp}}", "partial-hash": "{{> pp extra=1}}", "partial-in-with": "{{#with (id this)}}{{> pp}}{{/with}}"}[wrap]
+    elif wrap == "with-sub":
+        src = "{{#with (id this)}}" + tpl + "{{/with}}"
+    case = session(cfg, templates, {"api": "render_template", "src": src}, DATA)
+    return case, {"expect": exp, "form": form, "tpl": tpl, "wrap": wrap}
 
 
 def generate(rng, n, tier="quick"):
